@@ -206,6 +206,14 @@ pub async fn run() {
         None => return,
     };
     let mut session_dead = false;
+    // handles the application keeps after a detach (dropping one writes a closing detach of its own,
+    // which would hide an endpoint that did not answer the peer)
+    let mut kept: Vec<Box<dyn std::any::Any>> = Vec::new();
+    // after the peer's closing detach the application may answer with close() or with detach()
+    let answer_with_detach = choice(2) == 1;
+    // ... and may learn of it from on_detach() instead of from a failing send
+    let learn_by_on_detach = choice(2) == 1;
+    sim::append_config(&format!(" answer-with-detach={} learn-by-on_detach={}", answer_with_detach, learn_by_on_detach));
     match (script, attached) {
         (Script::AttachRefused, Ok(_)) => {
             sim::violation("refused-attach-succeeded", "the peer refused the attach with an immediate closing detach; attach() returned a link".into());
@@ -246,19 +254,35 @@ pub async fn run() {
             // the application's next operation on the link
             let r = match link {
                 L::S(mut s) => {
-                    let r1 = match sim::op("send on the link under test", s.send(msgs::gen_message(1, 50, 1))).await {
-                        Some(r) => format!("{:?}", r),
-                        None => return,
-                    };
-                    let r2 = match script {
-                        Script::IdleLinkDetachedByPeer => match sim::op("detach", s.detach()).await {
-                            Some(r) => format!("{:?}", r.map(|_| ()).map_err(|(_, e)| e)),
+                    let r1 = if learn_by_on_detach && script != Script::SessionEndedByPeer {
+                        match sim::op("on_detach on the link under test", s.on_detach()).await {
+                            Some(e) => format!("Err({:?})", e),
                             None => return,
-                        },
-                        _ => match sim::op("close", s.close()).await {
+                        }
+                    } else {
+                        match sim::op("send on the link under test", s.send(msgs::gen_message(1, 50, 1))).await {
                             Some(r) => format!("{:?}", r),
                             None => return,
-                        },
+                        }
+                    };
+                    let use_detach = script == Script::IdleLinkDetachedByPeer || (script == Script::IdleLinkClosedByPeer && answer_with_detach);
+                    let r2 = if use_detach {
+                        match sim::op("detach", s.detach()).await {
+                            Some(Ok(d)) => {
+                                kept.push(Box::new(d));
+                                "Ok(())".to_string()
+                            }
+                            Some(Err((d, e))) => {
+                                kept.push(Box::new(d));
+                                format!("Err({:?})", e)
+                            }
+                            None => return,
+                        }
+                    } else {
+                        match sim::op("close", s.close()).await {
+                            Some(r) => format!("{:?}", r),
+                            None => return,
+                        }
                     };
                     (r1, r2)
                 }
@@ -376,4 +400,5 @@ pub async fn run() {
         None => return,
     }
     let _ = sim::op("peer script", script_done.take()).await;
+    drop(kept);
 }
